@@ -3,6 +3,9 @@
      (c09 det CFG USEED OPTS STYLE TEXT VARS NAME (plans (p LABEL DIGEST)...) (reqs (r LABEL DIGEST)...) (xreqs (r LABEL DIGEST)...) (nreq N) (planerr B) (note S))
      (c09 hist CFG USEED (flags FORK JOIN) (base (rq GROUP STYLE TEXT VARS RESP MONO PAIRS NREQ COLL)...)
                (run OPTS (rs HIT RESP REQS FRESHREQS PAIRS FRESHRESP XREQS XFRESHREQS)...)...)
+       OPTS is the option set ("d+m-s-z-"), for a gated run followed by " order=sub>sub>..." (the subgraph priority
+       list the held subgraph responses were released by: harness/c09lab/gate.go); CFG names a fixed federation, a
+       configuration of the shared generator (gen-SEED-INDEX) or a member of a fixture family (ifh-/rq2-/genh-SEED-INDEX)
      (c09 dedup KIND (in LF...) (out LF...)|(panic MSG))
      (c09 rename CFG STYLE TEXT VARS NAME BEFORE AFTER (mapping (NEW OLD)...) VARSB VARSA MB MA MO (varserr S))
    The spec checkers extracted from coq/C09/Spec.v are evaluated on the IMPLEMENTATION's outputs;
@@ -114,7 +117,7 @@ let handle_hist cfg useed fork join base runs : (string * string) list =
   (* the monolithic reference *)
   (* on configurations of the shared generator "federated = monolithic" is property C01's business
      (it has findings of its own there); here it is checked on the fixed federations only *)
-  if not (starts_with "gen-" cfg) && not (mono_agrees_b hb) then begin
+  if not (starts_with "gen-" cfg || starts_with "genh-" cfg) && not (mono_agrees_b hb) then begin
     let reported = ref 0 in
     List.iter (fun (x : brq) ->
       if !reported < 3 && not (mono_agrees_b [x.b]) then begin
